@@ -3,7 +3,11 @@ package c16
 import (
 	"fmt"
 	"runtime"
+	"runtime/debug"
+	"strings"
+	"sync/atomic"
 	"testing"
+	"time"
 
 	"pgregory.net/rapid"
 	"verifharness/internal/pbt"
@@ -17,8 +21,12 @@ const (
 	phSlide = 2 // N rounds of (M insertions, then M removals); M <= 0 means 1: a sliding window
 	phEmpty = 3 // remove until empty, then N%4 further calls on the empty container (Remove, Peek alternating)
 	phGC    = 4 // runtime.GC() plus a burst of small allocations (no library call), then the usual observers
-	nPhases = 5
+	phSleep = 5 // time.Sleep(N milliseconds) (no library call; wall-clock time passes), then the usual observers
+	phDeep  = 6 // a recursion N frames deep (about 1 KiB each: the goroutine stack grows and is copied), then the observers
+	nPhases = 7
 )
+
+const maxSleepMs = 100000 // the watchdog of pbt calls a case blocked after 120 s without CPU use
 
 type Phase struct {
 	C int `json:"c,omitempty"` // container index (cases with several containers), reduced modulo their number
@@ -42,8 +50,18 @@ type PCase struct {
 	ZeroEvery int      `json:"zero_every,omitempty"`
 	// Procs > 0: the case runs under runtime.GOMAXPROCS(Procs) (restored afterwards). Only units without
 	// parallel replicas generate it (the setting is global to the process).
-	Procs  int     `json:"procs,omitempty"`
-	Phases []Phase `json:"phases"`
+	Procs int `json:"procs,omitempty"`
+	// Flip: another goroutine flips runtime.GOMAXPROCS between 2 and 7 (every 100 microseconds) while the history
+	// runs (restored afterwards). Only units without parallel replicas generate it.
+	Flip bool `json:"flip,omitempty"`
+	// Hop 1: every phase runs in a goroutine of its own (one after the other, never concurrently); 2: likewise, each
+	// goroutine locked to an OS thread. Containers are not tied to the goroutine that created them.
+	Hop int `json:"hop,omitempty"`
+	// Tiles (Kind "stack-tiles/<elem>"): container i is a Stack that is the window [L_i values, S_i spare elements] of
+	// ONE buffer, the windows adjacent in index order (three-index slices: each has only its own capacity); NC is
+	// len(Tiles). A Push beyond a window's capacity must not show in the neighbouring stacks.
+	Tiles  [][2]int `json:"tiles,omitempty"`
+	Phases []Phase  `json:"phases"`
 }
 
 const maxCalls = 1 << 26 // executed calls per case; longer (malformed) cases are cut off and labelled
@@ -62,8 +80,43 @@ func RunPhases(c PCase) pbt.Outcome {
 		}
 		defer runtime.GOMAXPROCS(runtime.GOMAXPROCS(c.Procs))
 	}
+	if c.Flip {
+		defer flipProcs()()
+	}
 	engs := make([]engine, nc)
+	defer func() {
+		for _, e := range engs {
+			if e != nil {
+				e.release()
+			}
+		}
+	}()
+	if len(c.Tiles) > 0 {
+		_, elem, _ := splitKind(c.Kind)
+		et, ok := elemByName[elem]
+		if !ok || !strings.HasPrefix(c.Kind, "stack-tiles/") || len(c.Tiles) > 8 {
+			return pbt.Fail("malformed case: tiles of kind %q", c.Kind)
+		}
+		nc = len(c.Tiles)
+		tags := make([]string, nc)
+		for i, t := range c.Tiles {
+			tags[i] = fmt.Sprintf("Stack[%s] #%d = window of %d values + %d spare of one shared buffer", elem, i, t[0], t[1])
+		}
+		engs = et.mkTiles(tags, c.Quiet, c.Tiles)
+		if engs == nil {
+			return pbt.Fail("malformed case: tiles %v", c.Tiles)
+		}
+		for _, e := range engs {
+			if m := e.check(-1, "fresh container", false); m != "" {
+				return pbt.Fail("%s", m)
+			}
+		}
+	}
+	guard := false
 	for i := range engs {
+		if len(c.Tiles) > 0 {
+			break
+		}
 		kind := c.Kind
 		if len(c.Kinds) > 0 {
 			kind = c.Kinds[i%len(c.Kinds)]
@@ -75,6 +128,10 @@ func RunPhases(c PCase) pbt.Outcome {
 		engs[i] = newEngine(kind, tag, c.Quiet)
 		if engs[i] == nil {
 			return pbt.Fail("malformed case: unknown kind %q", kind)
+		}
+		if isGuard(kind) && !guard {
+			guard = true
+			defer debug.SetPanicOnFault(debug.SetPanicOnFault(true))
 		}
 		if m := engs[i].check(-1, "fresh container", false); m != "" {
 			return pbt.Fail("%s", m)
@@ -109,6 +166,7 @@ func RunPhases(c PCase) pbt.Outcome {
 		calls++
 		return msg == ""
 	}
+	slept, deepest := 0, 0
 	for pi, p := range c.Phases {
 		e := engs[((p.C%nc)+nc)%nc]
 		n := p.N
@@ -116,50 +174,74 @@ func RunPhases(c PCase) pbt.Outcome {
 			n = 0
 		}
 		ok := true
-		switch ((p.K % nPhases) + nPhases) % nPhases {
-		case phFill:
-			for k := 0; k < n && ok; k++ {
-				ok = ins(e)
-			}
-		case phDrain:
-			beyond := 0
-			for k := 0; k < n && ok && beyond < 2; k++ {
-				if e.size() == 0 {
-					beyond++
+		hop(c.Hop, func() {
+			switch ((p.K % nPhases) + nPhases) % nPhases {
+			case phSleep:
+				if n > maxSleepMs {
+					n = maxSleepMs
 				}
-				ok = rem(e)
-			}
-		case phSlide:
-			m := p.M
-			if m <= 0 {
-				m = 1
-			}
-			for k := 0; k < n && ok; k++ {
-				for j := 0; j < m && ok; j++ {
+				time.Sleep(time.Duration(n) * time.Millisecond)
+				slept += n
+				if calls < maxCalls {
+					msg = e.check(calls, fmt.Sprintf("time.Sleep(%d ms)", n), false)
+				}
+			case phDeep:
+				if n > 1<<17 {
+					n = 1 << 17
+				}
+				if deepRecursion(n) != n {
+					msg = "harness error: deepRecursion"
+				}
+				if n > deepest {
+					deepest = n
+				}
+				if calls < maxCalls && msg == "" {
+					msg = e.check(calls, fmt.Sprintf("recursion %d frames deep", n), false)
+				}
+			case phFill:
+				for k := 0; k < n && ok; k++ {
 					ok = ins(e)
 				}
-				for j := 0; j < m && ok; j++ {
+			case phDrain:
+				beyond := 0
+				for k := 0; k < n && ok && beyond < 2; k++ {
+					if e.size() == 0 {
+						beyond++
+					}
 					ok = rem(e)
 				}
-			}
-		case phGC:
-			if calls < maxCalls {
-				msg = e.gc(calls)
-			}
-		case phEmpty:
-			for e.size() > 0 && ok {
-				ok = rem(e)
-			}
-			for k := 0; k < n%4 && ok; k++ {
-				if k%2 == 0 {
+			case phSlide:
+				m := p.M
+				if m <= 0 {
+					m = 1
+				}
+				for k := 0; k < n && ok; k++ {
+					for j := 0; j < m && ok; j++ {
+						ok = ins(e)
+					}
+					for j := 0; j < m && ok; j++ {
+						ok = rem(e)
+					}
+				}
+			case phGC:
+				if calls < maxCalls {
+					msg = e.gc(calls)
+				}
+			case phEmpty:
+				for e.size() > 0 && ok {
 					ok = rem(e)
-				} else if calls < maxCalls {
-					msg = e.peek(calls)
-					calls++
-					ok = msg == ""
+				}
+				for k := 0; k < n%4 && ok; k++ {
+					if k%2 == 0 {
+						ok = rem(e)
+					} else if calls < maxCalls {
+						msg = e.peek(calls)
+						calls++
+						ok = msg == ""
+					}
 				}
 			}
-		}
+		})
 		if msg != "" {
 			return pbt.Fail("%s%s", msg, where(pi, p))
 		}
@@ -206,6 +288,31 @@ func RunPhases(c PCase) pbt.Outcome {
 	if c.Procs > 0 {
 		out.Labels = append(out.Labels, fmt.Sprintf("gomaxprocs=%d", c.Procs))
 	}
+	if c.Flip {
+		out.Labels = append(out.Labels, "gomaxprocs-flipping-2<->7-meanwhile")
+	}
+	if c.Hop > 0 {
+		out.Labels = append(out.Labels, []string{"", "every-phase-in-a-new-goroutine", "every-phase-in-a-new-goroutine-locked-to-a-thread"}[c.Hop%3])
+	}
+	if len(c.Tiles) > 0 {
+		out.Labels = append(out.Labels, "stacks-are-windows-of-one-buffer")
+	}
+	switch {
+	case slept >= 60000:
+		out.Labels = append(out.Labels, "slept>=60s")
+	case slept >= 5000:
+		out.Labels = append(out.Labels, "slept>=5s")
+	case slept >= 2000:
+		out.Labels = append(out.Labels, "slept>=2s")
+	case slept > 0:
+		out.Labels = append(out.Labels, "slept<2s")
+	}
+	if deepest > 0 {
+		out.Labels = append(out.Labels, "deep-recursion-in-the-middle")
+	}
+	if s.removals >= 5 {
+		out.Labels = append(out.Labels, "removals>=5")
+	}
 	if cut {
 		out.Labels = append(out.Labels, "cut-off-at-maxcalls")
 	}
@@ -245,6 +352,59 @@ func RunPhases(c PCase) pbt.Outcome {
 	return out
 }
 
+// hop runs f in the calling goroutine (mode 0), in a new goroutine (1) or in a new goroutine locked to an OS thread
+// (2) and waits for it; a panic of f is re-raised in the caller.
+func hop(mode int, f func()) {
+	if mode%3 == 0 {
+		f()
+		return
+	}
+	done := make(chan any)
+	go func() {
+		defer func() { done <- recover() }()
+		if mode%3 == 2 {
+			runtime.LockOSThread() // the thread is discarded when the goroutine ends while locked
+		}
+		f()
+	}()
+	if p := <-done; p != nil {
+		panic(p)
+	}
+}
+
+// flipProcs starts a goroutine that flips runtime.GOMAXPROCS between 2 and 7; the returned function stops it and
+// restores the setting.
+func flipProcs() (stop func()) {
+	old := runtime.GOMAXPROCS(0)
+	var quit atomic.Bool
+	done := make(chan struct{})
+	go func() {
+		defer close(done)
+		for i := 0; !quit.Load(); i++ {
+			runtime.GOMAXPROCS(2 + 5*(i&1))
+			time.Sleep(100 * time.Microsecond)
+		}
+	}()
+	return func() {
+		quit.Store(true)
+		<-done
+		runtime.GOMAXPROCS(old)
+	}
+}
+
+// deepRecursion: n frames of about 1 KiB each, so that the goroutine stack has to grow (it is copied: everything
+// that lives on it moves).
+//
+//go:noinline
+func deepRecursion(n int) int {
+	var pad [120]uint64
+	pad[n%120] = uint64(n)
+	if n <= 0 {
+		return int(pad[0])
+	}
+	return deepRecursion(n-1) + 1 + int(pad[(n+1)%120])
+}
+
 func sizeClass(n int) string {
 	switch {
 	case n > 1<<40:
@@ -281,6 +441,10 @@ func phaseString(p Phase) string {
 		return fmt.Sprintf("%d x (insert %d, remove %d)", p.N, m, m)
 	case phGC:
 		return "runtime.GC()"
+	case phSleep:
+		return fmt.Sprintf("time.Sleep(%d ms)", p.N)
+	case phDeep:
+		return fmt.Sprintf("recursion %d frames deep", p.N)
 	}
 	return fmt.Sprintf("remove until empty, then %d call(s) on the empty container", p.N%4)
 }
